@@ -93,6 +93,7 @@ class SimpGen:
         self.helpers = {}
         self.copied = []       # sources of copies made so far (to be reassigned later)
         self.keep = []         # top-level lists the result reads
+        self.must_use = []     # variables the result must read (so that the definitions under test are live)
         self.risky = risky
 
     def fresh(self, base):
@@ -236,6 +237,23 @@ class SimpGen:
         self.features.add('literal-cond')
         return Node('bool', r.random() < 0.5)
 
+    def runtime_ctx(self, scope):
+        """A context constructor whose precision is an ARGUMENT of the function (not statically known)."""
+        r = self.r
+        iv = self.vars_of(scope, lambda t: t == 'I')
+        if not iv:
+            return None
+        pv = V(r.choice(iv))
+        rm = r.choice(RMODES) if r.random() < 0.6 else 'RNE'
+        k = r.random()
+        self.features.add('with-runtime-ctx')
+        if k < 0.5:
+            return Node('ctor', 'MPFloat', rm, None, [pv])
+        if k < 0.75:
+            return Node('ctor', 'MPSFloat', rm, None, [pv, lit(r.randint(-4, 1))])
+        es = r.randint(2, 5)
+        return Node('ctor', 'IEEE', rm, 'OVERFLOW', [lit(es), Node('op2', 'add', pv, lit(es + 1))])
+
     def ctx_expr(self, scope):
         r = self.r
         cv = self.vars_of(scope, lambda t: t == 'C')
@@ -252,6 +270,49 @@ class SimpGen:
             return Node('ctor', 'MPSFloat', rm, None, [lit(r.randint(2, 6)), lit(r.randint(-4, 1))])
         es = r.randint(2, 4)
         return Node('ctor', 'IEEE', rm, 'OVERFLOW', [lit(es), lit(es + r.randint(2, 6))])
+
+    def inexact_const(self):
+        """Closed arithmetic that is inexact under small precisions (and differently so under different ones)."""
+        r = self.r
+        a, b = r.choice([(1, 3), (1, 10), (2, 3), (1, 7), (5, 3), (F(1, 10), F(3, 10)), (F(7, 5), 3)])
+        e = Node('op2', 'div', lit(a), lit(b))
+        if r.random() < 0.4:
+            e = Node('op2', r.choice(['add', 'mul']), e, lit(r.choice([F(1, 10), F(1, 5), 3, F(7, 5)])))
+        return e
+
+    def pattern(self, scope, frozen, depth=2):
+        """A (possibly nested) tuple pattern with a matching tuple expression; leaves are fresh names or existing
+        real variables.  -> (pattern node, expression node, leaf names)"""
+        r = self.r
+        used = set()
+
+        def leaf():
+            cands = [v for v, ty in scope.items() if ty == 'R' and v not in frozen and v not in used]
+            if cands and r.random() < 0.45:
+                x = r.choice(cands)
+            else:
+                x = self.fresh('n')
+            used.add(x)
+            return x
+
+        def go(d):
+            k = r.randint(2, 3)
+            ps, es, ls = [], [], []
+            nested = False
+            for j in range(k):
+                if d > 0 and (r.random() < 0.45 or (j == k - 1 and not nested and d == depth)):
+                    p1, e1, l1 = go(d - 1)
+                    nested = True
+                    ps.append(p1)
+                    es.append(e1)
+                    ls += l1
+                else:
+                    x = leaf()
+                    ps.append(PV(x))
+                    es.append(self.expr_R(scope, 1))
+                    ls.append(x)
+            return Node('ptuple', ps), Node('tuple', es), ls
+        return go(depth)
 
     # ---- statements
     def stmts(self, scope, depth, n, in_loop=False):
@@ -295,6 +356,15 @@ class SimpGen:
             scope[x] = 'R'
             self.features.add('const-assign')
             return [Node('assign', PV(x), self.const_R(2))]
+        if c < 0.52 and r.random() < 0.5:                      # nested tuple pattern, partially used leaves
+            pat, e, leaves = self.pattern(scope, frozen, depth=r.choice([1, 1, 2]))
+            for x in leaves:
+                scope[x] = 'R'
+            # some leaves are read by the result, the others stay dead
+            for x in r.sample(leaves, r.randint(1, max(1, len(leaves) - 1))):
+                self.must_use.append(x)
+            self.features.add('nested-tuple-assign')
+            return [Node('assign', pat, e)]
         if c < 0.52:                                           # tuple assignment, some leaves dead
             x, y = self.fresh('p'), self.fresh('q')
             e = Node('tuple', [self.expr_R(scope, 1), self.expr_R(scope, 1)])
@@ -376,6 +446,28 @@ class SimpGen:
                 self.features.add('for')
                 return [Node('for', PV(t), it, body)]
             # with
+            rc = self.runtime_ctx(scope) if r.random() < 0.45 else None
+            if rc is not None:
+                # a context only known at run time, inside a statically known one; constants computed under it
+                outs = [v for v in Rs if v not in frozen]
+                inner = dict(scope)
+                body = []
+                for _ in range(r.randint(1, 2)):
+                    if outs and r.random() < 0.8:
+                        y = r.choice(outs)
+                    else:
+                        y = self.fresh('w')
+                        inner[y] = 'R'
+                    body.append(Node('assign', PV(y), self.inexact_const()))
+                    self.must_use.append(y)
+                    if y not in scope and depth == 2:
+                        scope[y] = 'R'      # a `with` block does not scope its definitions
+                body += self.stmts(inner, depth - 1, r.randint(0, 2), in_loop)
+                w = Node('with', None, rc, body)
+                self.features.add('with')
+                if r.random() < 0.6:
+                    return [Node('with', None, self.ctx_const() if r.random() < 0.7 else Node('ctxval', 'fp.FP64', CtxSpec('FP64')), [w])]
+                return [w]
             ce = self.ctx_expr(scope)
             inner = dict(scope)
             name = None
@@ -400,6 +492,9 @@ class SimpGen:
         if r.random() < 0.5:
             params.append('xs')
             scope['xs'] = ('L', 3)
+        if r.random() < 0.6:
+            params.append('pr')            # a small precision, only known at run time
+            scope['pr'] = 'I'
         fctx = self.small_ctx() if r.random() < 0.35 else None
         body = self.stmts(scope, 2, r.randint(4, 9))
         scope.pop('#frozen', None)
@@ -407,9 +502,12 @@ class SimpGen:
         k = r.random()
         Rs = self.vars_of(scope, lambda t: t == 'R')
         Ls = self.vars_of(scope, lambda t: isinstance(t, tuple))
-        if k < 0.55:
+        must = [v for v in dict.fromkeys(self.must_use) if scope.get(v) == 'R'][:4]
+        if k < 0.55 or must:
             e = self.expr_R(scope, 2)
             for v in r.sample(Rs, min(len(Rs), 2)):
+                e = Node('op2', 'add', e, V(v))
+            for v in must:
                 e = Node('op2', 'add', e, V(v))
             for l in self.keep[:3]:
                 if isinstance(scope.get(l), tuple):
@@ -434,7 +532,7 @@ class SimpGen:
             if k < special:
                 return r.choice([N.fin(0), N.fin(0, negzero=True), N.inf(False), N.inf(True), N.nan(False)])
             return N.fin(r.choice([1, 2, 3, -1, -3, F(1, 2), F(5, 2), F(-7, 4), F(1, 10), 10 ** 10, F(1, 3), 7, 100]))
-        return [[real() for _ in range(3)] if p == 'xs' else real() for p in params]
+        return [[real() for _ in range(3)] if p == 'xs' else (N.fin(r.randint(2, 8)) if p == 'pr' else real()) for p in params]
 
 
 # ---------------------------------------------------------------- corpus: the witnesses of the known defects
@@ -511,6 +609,48 @@ def corpus():
                                Node('while', Node('cmp', ['<'], [V('i'), lit(0)]), [A('i', add(V('i'), lit(1)))]),
                                Node('return', V('x'))])]),
                 [[N.fin(1), [N.fin(5), N.fin(6)]]], {}, 'dce_unreachable_after_return'))
+    # regression: constants under a context known only at run time, nested in a static one, must not be folded
+    FP64v = Node('ctxval', 'fp.FP64', CtxSpec('FP64'))
+    div = lambda a, b: Node('op2', 'div', a, b)          # noqa: E731
+    out.append(('runtime_ctx_in_static_ctx',
+                Program([Func('main', ['p'], None,
+                              [A('t', lit(0)),
+                               Node('with', None, FP64v,
+                                    [Node('with', None, Node('ctor', 'IEEE', 'RNE', 'OVERFLOW', [lit(5), V('p')]),
+                                          [A('t', div(lit(1), lit(3)))]),
+                                     Node('return', V('t'))])])]),
+                [[N.fin(8)], [N.fin(10)], [N.fin(16)]], {}, None))
+    out.append(('runtime_ctx_in_declared_ctx',
+                Program([Func('main', ['p'], CtxSpec('MPFloat', p=4, rm='RTZ'),
+                              [A('s', lit(1)),
+                               Node('with', None, Node('ctor', 'MPFloat', 'RNE', None, [V('p')]),
+                                    [A('u', div(lit(1), lit(10))), A('v', div(lit(1), lit(5))), A('t', add(V('u'), V('v')))]),
+                               Node('return', Node('op2', 'mul', V('t'), V('s')))])]),
+                [[N.fin(2)], [N.fin(5)], [N.fin(9)]], {}, None))
+    # regression: a nested tuple pattern whose outer leaf is dead and inner leaves are read later
+    nest = lambda: Node('ptuple', [PV('u'), Node('ptuple', [PV('a'), PV('b')])])      # noqa: E731
+    out.append(('nested_tuple_branch',
+                Program([Func('main', ['x', 'c'], None,
+                              [A('a', lit(0)), A('b', lit(0)),
+                               Node('if1', Node('cmp', ['>'], [V('c'), lit(0)]),
+                                    [Node('assign', nest(), Node('tuple', [V('x'), Node('tuple', [add(V('x'), lit(1)), add(V('x'), lit(2))])]))]),
+                               Node('return', Node('op2', 'mul', V('a'), V('b')))])]),
+                [[N.fin(3), N.fin(1)], [N.fin(3), N.fin(0)]], {}, None))
+    out.append(('nested_tuple_straight',
+                Program([Func('main', ['x'], None,
+                              [A('a', V('x')),
+                               Node('assign', nest(), Node('tuple', [Node('op2', 'mul', V('x'), lit(3)),
+                                                                     Node('tuple', [add(V('a'), lit(1)), Node('op2', 'mul', V('a'), lit(2))])])),
+                               Node('return', add(Node('op2', 'mul', V('a'), lit(100)), V('b')))])]),
+                [[N.fin(3)], [N.fin(-2)]], {}, None))
+    out.append(('nested_tuple_loop',
+                Program([Func('main', ['x', 'xs'], None,
+                              [A('a', lit(0)), A('b', V('x')),
+                               Node('for', PV('e'), V('xs'),
+                                    [Node('assign', Node('ptuple', [Node('ptuple', [PV('a'), PV('u')]), PV('b')]),
+                                          Node('tuple', [Node('tuple', [add(V('a'), V('e')), V('b')]), add(V('b'), lit(1))]))]),
+                               Node('return', add(V('a'), V('b')))])]),
+                [[N.fin(1), [N.fin(10), N.fin(20)]]], {}, None))
     # C07-F: the reaching-definitions analysis forgets the loop target after a `for`
     out.append(('for_target_escapes',
                 Program([Func('main', ['y', 'xs'], None,
